@@ -2,7 +2,7 @@
    bool, option, unit, list, prod, sumbool map to OCaml's; N/Z/positive/nat/byte stay Coq
    datatypes).  Not part of _CoqProject: compiled by ./check in _build/extract. *)
 From Coq Require Import extraction.Extraction ExtrOcamlBasic.
-From RS Require Import Base.Bytes Base.Dec Base.Endian Spec.Crc16 Spec.Slot Spec.Crc64 Model.Slot Model.Digest.
+From RS Require Import Base.Bytes Base.Dec Base.Endian Spec.Crc16 Spec.Slot Spec.Crc64 Model.Slot Model.Digest Model.RespCodec.
 Extraction Language OCaml.
 Set Extraction KeepSingleton.
 Extraction "model.ml"
@@ -10,4 +10,5 @@ Extraction "model.ml"
   crc16 slot_spec slot_spec_fast key_to_slot crc16_common crc16_latency chose_slot_in_range find_key_in_range latency_key
   le_enc le_dec be_enc be_dec
   digest_write digest_sum digest_writes cupcake_digest ext_digest rdb_footer_ok create_value_dump verify_dump
-  check_version_checksum payload_fast.
+  check_version_checksum payload_fast
+  encode dec dec_stream itos parse_int64.
